@@ -50,3 +50,22 @@ Theorem fault_recoverable_repeatedly_refuted :
   dead (faults false 2 sig_init) = true /\ recovered (faults false 2 sig_init) = 1%nat.
 Proof. exact faults_nomask_second_dies. Qed.
 Print Assumptions fault_recoverable_repeatedly_refuted.
+
+(* Bounds of slice expressions and make sizes of a type wider than int (64-bit
+   on a 32-bit target): after narrowing, a value is a valid bound (0 <= v <=
+   limit, limit < 2^31) exactly when it was one before, and then it is
+   unchanged - so the runtime check that follows gives Go's verdict. *)
+Theorem fit_int_preserves_bound_verdict : forall tn pw n limit,
+  wf_ity tn -> wf_pw pw -> in_range (bits tn) n -> 0 <= limit < 2 ^ (pw - 1) ->
+  exists r, exec (recipe_fit true tn pw) [n] = Ret r
+            /\ bound_ok limit (sgn pw r) = bound_ok limit (val tn n)
+            /\ (bound_ok limit (val tn n) = true -> sgn pw r = val tn n).
+Proof. exact fit_fixed_exact. Qed.
+Print Assumptions fit_int_preserves_bound_verdict.
+
+(* the pinned lowering (plain truncation): a[0:int64(1)<<32+1] passes as a[0:1] *)
+Theorem fit_int_truncation_refuted :
+  exec (recipe_fit false I64 32) [2 ^ 32 + 1] = Ret 1
+  /\ bound_ok 10 (val I64 (2 ^ 32 + 1)) = false /\ bound_ok 10 (sgn 32 1) = true.
+Proof. exact fit_truncation_refuted. Qed.
+Print Assumptions fit_int_truncation_refuted.
